@@ -84,7 +84,7 @@ def summarise(prop, tier, seed, contracts, grps, findings, res, wall):
                     violations.append((oid, path, bool(conf), r0.get("inputs_repr")))
                 else:
                     undecided.append({"id": oid, "why": "; ".join(o.get("why", []))[:400]})
-        elif not c.bounded_only:
+        elif not c.bounded_only and (c.quick or tier == "thorough"):
             undecided.append({"id": c.id + ".*", "why": "no result from the symbolic worker"})
         if grid is not None:
             evaluations += grid.get("evaluations", 0)
